@@ -344,3 +344,7 @@ impl<const N: usize> FixedString<N> {
         Self::new()
     }
 }
+impl<T, const N: usize> FixedVec<T, N> {
+    /// capacity is fixed: reserving is a no-op
+    pub fn reserve(&mut self, _n: usize) {}
+}
